@@ -54,6 +54,9 @@ def plan(tier, seed):
         for order in range(1, 7):
             for permute in (True, False):
                 cases.append(dict(key=f"ArbitraryOrderLagrange/order={order}/dim={dim}/permute={permute}", cls="ArbitraryOrderLagrange", kw=dict(order=order, dim=dim, permute=permute), cost=(order + 3) ** (2 * dim)))
+    # the class is documented as an n-dimensional element: dimension four (permute=False: no VTK ordering exists beyond three)
+    for order in (1, 2):
+        cases.append(dict(key=f"ArbitraryOrderLagrange/order={order}/dim=4/permute=False", cls="ArbitraryOrderLagrange", kw=dict(order=order, dim=4, permute=False), cost=(order + 3) ** 6))
     # non-default reference interval (a, b) of the Lagrange element: the cell is [a, b]^dim
     for dim in (1, 2):
         for order in (1, 2, 3):
